@@ -246,8 +246,49 @@ def doRoute (ws : List String) : String :=
     | _, _, _ => "bad-op"
   | _ => "bad-op"
 
+/-! plan: `plan all=<0|1> sel=<fn>:<field>,.. schema=none|-|<field>:<ftype>,..` -/
+
+def internAll (st : DSt) (ns : List String) : DSt × List Nat :=
+  ns.foldl (fun (acc : DSt × List Nat) n =>
+    let (names, i) := internIdx acc.1.names n
+    ({ acc.1 with names := names }, acc.2 ++ [i])) (st, [])
+
+def doPlan (st : DSt) (all : Bool) (selS schemaS : String) : DSt × String :=
+  let selRaw? : Option (List (Nat × String)) :=
+    if selS = "-" then some [] else
+    (selS.splitOn ",").mapM (fun w => match w.splitOn ":" with
+      | [fn, n] => do let fn ← fn.toNat?; some (fn, n)
+      | _ => none)
+  let schRaw? : Option (Option (List (String × Nat))) :=
+    if schemaS = "none" then some none
+    else if schemaS = "-" then some (some [])
+    else match (schemaS.splitOn ",").mapM (fun (w : String) => match w.splitOn ":" with
+      | [n, ft] => (ft.toNat?).map (fun (x : Nat) => (n, x))
+      | _ => none) with
+      | some l => some (some l)
+      | none => none
+  match selRaw?, schRaw? with
+  | some selRaw, some schRaw =>
+    let (st1, selIdx) := internAll st (selRaw.map Prod.snd)
+    let items : List SelItem := (selRaw.zip selIdx).map (fun (p, i) => { fn := p.1, field := i })
+    let (st2, schema) : DSt × Option (List (FName × Nat)) := match schRaw with
+      | none => (st1, none)
+      | some l => let (s2, idx) := internAll st1 (l.map Prod.fst); (s2, some (idx.zip (l.map Prod.snd)))
+    match leafPlan schema (if all then none else some items) with
+    | .error .notFound => (st2, "nf")
+    | .error .other => (st2, "er")
+    | .ok specs => (st2, " ".intercalate ("specs" :: (sortStr (specs.map (showSpec st2))).map Prod.snd))
+  | _, _ => (st, "bad-op")
+
 def step (st : DSt) (ws : List String) : DSt × String :=
   match ws with
+  | ["plan", a, s, sc] =>
+    match kv a "all", kv s "sel", kv sc "schema" with
+    | some a, some s, some sc =>
+      match a.toNat? with
+      | some a => doPlan st (a != 0) s sc
+      | none => (st, "bad-op")
+    | _, _, _ => (st, "bad-op")
   | ["new", id, n] =>
     match id.toNat?, n.toNat? with
     | some id, some n => let c := Ctx.new n; (putCtx st id c, showState c)
